@@ -252,6 +252,19 @@ def r3_sweep(ctx, chk, rule="C02.3"):
         a_ = next(iter(actual))
         if a_[3] and a_[3][0] == slist:
             call = a_
+    if len(actual) > 1 and all(a_[3] and a_[3][0] == slist for a_ in actual):
+        # the kernel is called in several ways - with and without an optional argument that the solver computed beforehand (the
+        # reachability-minimising actions of a Player-2 state, once per run instead of once per sweep).  What the kernel does
+        # with such an argument is judged with the kernel, in its call context (C02.2 / C14.1); for the sweep all of these are
+        # "the kernel's result for this state"
+        ms = [m for m in (ctx.prog.resolve_method(c_, "value_iteration_rewards") for c_ in K.role_classes(ctx).values()) if m is not None]
+        if ms and all(all(p in m.defaults for p in [q for q in m.params if q != "self"][1:]) for m in ms):
+            from ..symx import subst, deep_simp, path_simp
+
+            def unify(t):
+                return path_simp(deep_simp(subst(t, lambda x: call if x[0] == "mcall" and x[1] == st and x[2] == "value_iteration_rewards" and x[3] and x[3][0] == slist else None)))
+            fo.term = unify(fo.term)
+            F.effects = [tuple(unify(x) if isinstance(x, tuple) and x and isinstance(x[0], str) else x for x in e_) for e_ in F.effects]
     fields = [ER, EMR, ERM]
     news = [simp(("idx", call, C(i))) for i in range(3)]
     diffs = [simp(("call", "abs", (mk_add(news[i], negate(("attr", st, fields[i]))),), ())) for i in range(3)]
